@@ -9,6 +9,7 @@
 -/
 import OHVerif.Lemmas.LaxStrict
 import OHVerif.Spec.Diagram
+import OHVerif.Props.C01
 
 namespace OH.C04
 open OH OH.LaxStrict
@@ -291,5 +292,302 @@ example : (LOHG.twist ["a", "b"] ["c"] : Res (LOHG String String)) =
       .ok ⟨[0, 0], [1], LHG.discrete ["a", "b"]⟩ ∧
     (LOHG.spider ⟨[0, 0], 2⟩ ⟨[1], 3⟩ ["a", "b"] : Res (LOHG String String)) = .none ∧
     (LOHG.spider ⟨[0, 0], 3⟩ ⟨[1], 3⟩ ["a", "b"] : Res (LOHG String String)) = .none := by decide
+
+/-! ### spider fusion (uses the characterisation of composition, `OH.C01`) -/
+
+/-- a well-formed strict hypergraph without hyperedges is the discrete one on its nodes -/
+theorem discrete_of_wf (h : HG O A) (hwf : h.wf = true) (hx : h.x = []) : h = HG.discrete h.w := by
+  obtain ⟨hsw, htw, hsl, htl, hsv, htv⟩ := (hg_wf_iff h).1 hwf
+  obtain ⟨hsvalid, _, _⟩ := (ic_wf_iff _).1 hsw
+  obtain ⟨htvalid, _, _⟩ := (ic_wf_iff _).1 htw
+  obtain ⟨hs1, hs2⟩ := (IC.valid_iff _).1 hsvalid
+  obtain ⟨ht1, ht2⟩ := (IC.valid_iff _).1 htvalid
+  obtain ⟨⟨⟨st, sg⟩, ⟨svt, svg⟩⟩, ⟨⟨tt, tg⟩, ⟨tvt, tvg⟩⟩, w, x⟩ := h
+  simp only [IC.len, FinFun.source, IC.len_finfun] at *
+  subst hx
+  have e1 : st = [] := List.eq_nil_of_length_eq_zero hsl
+  have e2 : tt = [] := List.eq_nil_of_length_eq_zero htl
+  subst e1 e2
+  simp only [List.sum_nil] at hs1 hs2 ht1 ht2
+  have e3 : svt = [] := List.eq_nil_of_length_eq_zero hs2.symm
+  have e4 : tvt = [] := List.eq_nil_of_length_eq_zero ht2.symm
+  subst e3 e4 hs1 ht1 hsv htv
+  rfl
+
+/-- SPIDER FUSION.  Two spiders `(s, t, w)` and `(s', t', w')` with well-formed legs whose boundary
+    types match compose, for every lawful backend, to a diagram that
+    * is again a spider: discrete hypergraph on some node list `w''`, legs `s ; q` and `t' ; q`;
+    * whose nodes are the connected classes of the glued boundary: `q` maps the disjoint union
+      `[0, |w| + |w'|)` onto the nodes of `w''`, and `q i = q j` iff `i` and `j` are connected by
+      the identifications `t[k] ~ |w| + s'[k]`;
+    * whose node labels are those of `w`, `w'` pushed through `q`;
+    * and is the gluing of the two spiders in the sense of C01. -/
+theorem spider_fusion [DecidableEq O] (B : Backend) (hB : B.Lawful)
+    (s t s' t' : FinFun) (w w' : List O) (f g : OHG O A)
+    (hs : s.WF) (ht : t.WF) (hs' : s'.WF) (ht' : t'.WF)
+    (hf : OHG.spider s t w = .ok f) (hg : OHG.spider s' t' w' = .ok g)
+    (hty : f.target = g.source) :
+    ∃ (r : OHG O A) (q : Nat → Nat) (w'' : List O),
+      OHG.compose B f g = .ok r ∧
+      OHG.spider ⟨s.table.map q, w''.length⟩ ⟨t'.table.map (fun i => q (w.length + i)), w''.length⟩
+        w'' = .ok r ∧
+      r.h.isDiscrete = true ∧ r.wf = true ∧
+      (∀ i, i < w.length + w'.length → q i < w''.length) ∧
+      (∀ k, k < w''.length → ∃ i, i < w.length + w'.length ∧ q i = k) ∧
+      (∀ i j, i < w.length + w'.length → j < w.length + w'.length →
+        (q i = q j ↔ Relation.EqvGen (fun a b => ∃ k c : Nat, t.table[k]? = some a ∧
+          s'.table[k]? = some c ∧ b = w.length + c) i j)) ∧
+      (∀ i, i < w.length → w''[q i]? = w[i]?) ∧
+      (∀ i, i < w'.length → w''[q (w.length + i)]? = w'[i]?) ∧
+      IsGluing f.toPlain g.toPlain r.toPlain := by
+  have hfw := spider_wf s t w f hf hs ht
+  have hgw := spider_wf s' t' w' g hg hs' ht'
+  obtain ⟨rfl, _, _⟩ := spider_ok s t w f hf
+  obtain ⟨rfl, _, _⟩ := spider_ok s' t' w' g hg
+  obtain ⟨r, hr⟩ := (C01.compose_total B hB _ _ hfw hgw).1 hty
+  obtain ⟨hrw, q, hq1, hq2, hq3, hq4, hq5, hx, _, _, _, hsrc, htgt⟩ :=
+    C01.compose_explicit B hB _ _ r hfw hgw hr
+  have hglue := (C01.compose_isGluing B hB _ _ r hfw hgw hr).1
+  obtain ⟨hrh, _, _, hrs, hrt⟩ := (ohg_wf_iff r).1 hrw
+  have hdisc := discrete_of_wf r.h hrh (by rw [hx]; rfl)
+  have hreq : r = ⟨⟨s.table.map q, r.h.w.length⟩,
+      ⟨t'.table.map (fun i => q (w.length + i)), r.h.w.length⟩, HG.discrete r.h.w⟩ := by
+    obtain ⟨⟨rst, rsg⟩, ⟨rtt, rtg⟩, rh⟩ := r
+    simp only at hsrc htgt hrs hrt hdisc
+    subst hsrc htgt hrs hrt
+    rw [← hdisc]
+    rfl
+  refine ⟨r, q, r.h.w, hr, ?_, ?_, hrw, hq1, hq2, hq3, hq4, hq5, hglue⟩
+  · rw [spider_eq, if_pos ⟨rfl, rfl⟩]
+    exact congrArg Res.ok hreq.symm
+  · rw [hdisc]; rfl
+
+/-- witnesses: legs that are neither injective nor surjective; the middle boundary `b b` is
+    glued so that the three nodes `1, 2` (of the first) and `0` (of the second) collapse -/
+example :
+    let s : FinFun := ⟨[0, 0], 3⟩
+    let t : FinFun := ⟨[1, 2], 3⟩
+    let s' : FinFun := ⟨[0, 0], 2⟩
+    let t' : FinFun := ⟨[1, 1, 0], 2⟩
+    s.WF ∧ t.WF ∧ s'.WF ∧ t'.WF ∧
+    (OHG.spider s t ["a", "b", "b"] >>= fun f => OHG.spider s' t' ["b", "c"] >>= fun g =>
+      (OHG.toPlain <$> OHG.compose vecBackend (A := String) f g)) =
+      .ok ⟨["a", "b", "c"], [], [0, 0], [2, 2, 1]⟩ := by decide
+
+/-! ### dagger reverses composition (uses `OH.C01` and the quotient library) -/
+
+section DaggerComp
+open Relation
+
+/-- exchange of the two blocks of a disjoint union `[0,n) + [0,m)` -/
+def swapBlocks (n m i : Nat) : Nat := if i < n then m + i else i - n
+
+theorem swapBlocks_bijOn (n m : Nat) : BijOn (n + m) (m + n) (swapBlocks n m) := by
+  refine ⟨?_, ?_, ?_⟩
+  · intro i hi; unfold swapBlocks; split <;> omega
+  · intro i j hi hj h; unfold swapBlocks at h; split at h <;> split at h <;> omega
+  · intro k hk
+    by_cases h : k < m
+    · exact ⟨n + k, by omega, by unfold swapBlocks; rw [if_neg (by omega)]; omega⟩
+    · exact ⟨k - m, by omega, by unfold swapBlocks; rw [if_pos (by omega)]; omega⟩
+
+theorem swapBlocks_swapBlocks (n m i : Nat) (hi : i < n + m) :
+    swapBlocks m n (swapBlocks n m i) = i := by
+  unfold swapBlocks; split <;> split <;> omega
+
+theorem pdagger_wf {P : PDiag O A} (h : P.wf = true) : P.dagger.wf = true := by
+  obtain ⟨h1, h2, h3⟩ := (PDiag.wf_iff P).1 h
+  exact (PDiag.wf_iff _).2 ⟨h2, h1, h3⟩
+
+theorem IsQuotMap.dagger {P R : PDiag O A} {q : Nat → Nat} (h : IsQuotMap P R q) :
+    IsQuotMap P.dagger R.dagger q :=
+  ⟨h.lt, h.onto, h.nodes, h.edges, h.outs, h.ins⟩
+
+/-- two quotient maps out of ISOMORPHIC well-formed diagrams whose kernels correspond under the
+    isomorphism have isomorphic codomains (`iso_of_quotMaps` transported along an isomorphism that
+    may also permute the edges) -/
+theorem iso_of_quotMaps_over_iso {P1 P2 R1 R2 : PDiag O A} {q1 q2 σ ρ : Nat → Nat}
+    (hP1 : P1.wf = true) (hσ : BijOn P1.n P2.n σ)
+    (hρ : BijOn P1.edges.length P2.edges.length ρ)
+    (hnodes : ∀ i, i < P1.n → P2.nodes[σ i]? = P1.nodes[i]?)
+    (hedges : ∀ e, e < P1.edges.length →
+      P2.edges[ρ e]? = (P1.edges[e]?).map (PEdge.mapNodes σ))
+    (hins : P2.ins = P1.ins.map σ) (houts : P2.outs = P1.outs.map σ)
+    (h1 : IsQuotMap P1 R1 q1) (h2 : IsQuotMap P2 R2 q2)
+    (hker : ∀ i j, i < P1.n → j < P1.n → (q1 i = q1 j ↔ q2 (σ i) = q2 (σ j))) : R1 ≅ R2 := by
+  have hq' : IsQuotMap P1 ⟨R2.nodes, P1.edges.map (PEdge.mapNodes (fun i => q2 (σ i))),
+      P1.ins.map (fun i => q2 (σ i)), P1.outs.map (fun i => q2 (σ i))⟩ (fun i => q2 (σ i)) := by
+    refine ⟨fun i hi => h2.lt _ (hσ.1 i hi), ?_, ?_, rfl, rfl, rfl⟩
+    · intro k hk
+      obtain ⟨j, hj, rfl⟩ := h2.onto k hk
+      obtain ⟨i, hi, rfl⟩ := hσ.2.2 j hj
+      exact ⟨i, hi, rfl⟩
+    · intro i hi
+      show R2.nodes[q2 (σ i)]? = _
+      rw [h2.nodes _ (hσ.1 i hi), hnodes i hi]
+  refine iso_trans (iso_of_quotMaps hP1 h1 hq' hker) ?_
+  refine ⟨fun i => i, ρ, BijOn.refl _, ?_, fun _ _ => rfl, ?_, ?_, ?_⟩
+  · have e1 : R2.edges.length = P2.edges.length := by rw [h2.edges]; simp
+    rw [e1]
+    simpa using hρ
+  · intro e he
+    have he' : e < P1.edges.length := by simpa using he
+    rw [h2.edges, List.getElem?_map, hedges e he']
+    simp only [List.getElem?_map]
+    cases P1.edges[e]? with
+    | none => rfl
+    | some x => simp [PEdge.mapNodes_comp]
+  · rw [h2.ins, hins]; simp
+  · rw [h2.outs, houts]; simp
+
+/-- the generating pairs of the gluing of `G†, F†` are those of the gluing of `F, G`, reversed
+    and with the two blocks exchanged -/
+theorem glue_swap {F G : PDiag O A} (hF : F.wf = true) (hG : G.wf = true) (i j : Nat)
+    (h : EqvGen (fun a b => a < (gluePre F G).n ∧ b < (gluePre F G).n ∧ glueRel F G a b) i j) :
+    EqvGen (fun a b => a < (gluePre G.dagger F.dagger).n ∧ b < (gluePre G.dagger F.dagger).n ∧
+      glueRel G.dagger F.dagger a b) (swapBlocks F.n G.n i) (swapBlocks F.n G.n j) := by
+  obtain ⟨_, f2, _⟩ := (PDiag.wf_iff F).1 hF
+  obtain ⟨g1, _, _⟩ := (PDiag.wf_iff G).1 hG
+  induction h with
+  | refl => exact EqvGen.refl _
+  | symm _ _ _ ih => exact EqvGen.symm _ _ ih
+  | trans _ _ _ _ _ ih1 ih2 => exact EqvGen.trans _ _ _ ih1 ih2
+  | rel a b hab =>
+    obtain ⟨_, _, k, hk1, hk2⟩ := hab
+    cases hgk : G.ins[k]? with
+    | none => rw [hgk] at hk2; cases hk2
+    | some c =>
+      rw [hgk] at hk2
+      have hb : b = F.n + c := (Option.some.inj hk2).symm
+      have ha : a < F.n := f2 a (List.mem_of_getElem? hk1)
+      have hc : c < G.n := g1 c (List.mem_of_getElem? hgk)
+      have e1 : swapBlocks F.n G.n a = G.n + a := by unfold swapBlocks; rw [if_pos ha]
+      have e2 : swapBlocks F.n G.n b = c := by
+        unfold swapBlocks; rw [if_neg (by omega)]; omega
+      rw [e1, e2]
+      apply EqvGen.symm
+      apply EqvGen.rel
+      refine ⟨?_, ?_, k, hgk, ?_⟩
+      · rw [gluePre_n]; show c < G.n + F.n; omega
+      · rw [gluePre_n]; show G.n + a < G.n + F.n; omega
+      · show (F.outs[k]?).map (G.n + ·) = some (G.n + a)
+        rw [hk1]; rfl
+
+/-- on plain diagrams: the dagger of the gluing of `F, G` is the gluing of `G†, F†` -/
+theorem gluing_dagger {F G R R' : PDiag O A} (hF : F.wf = true) (hG : G.wf = true)
+    (h : IsGluing F G R) (h' : IsGluing G.dagger F.dagger R') : R.dagger ≅ R' := by
+  obtain ⟨f1, f2, f3⟩ := (PDiag.wf_iff F).1 hF
+  obtain ⟨q, hq, hk⟩ := (isQuot_iff _ _ _).1 h
+  obtain ⟨q', hq', hk'⟩ := (isQuot_iff _ _ _).1 h'
+  have hn1 : (gluePre F G).dagger.n = F.n + G.n := gluePre_n F G
+  have hn2 : (gluePre G.dagger F.dagger).n = G.n + F.n := gluePre_n G.dagger F.dagger
+  have hl1 : (gluePre F G).dagger.edges.length = F.edges.length + G.edges.length := by
+    simp [gluePre, PDiag.dagger]
+  have hl2 : (gluePre G.dagger F.dagger).edges.length = G.edges.length + F.edges.length := by
+    simp [gluePre, PDiag.dagger]
+  refine iso_of_quotMaps_over_iso (σ := swapBlocks F.n G.n)
+    (ρ := swapBlocks F.edges.length G.edges.length) (pdagger_wf (gluePre_wf hF hG)) ?_ ?_ ?_ ?_ ?_ ?_
+    (IsQuotMap.dagger hq) hq' ?_
+  · rw [hn1, hn2]; exact swapBlocks_bijOn _ _
+  · rw [hl1, hl2]; exact swapBlocks_bijOn _ _
+  · intro i hi
+    rw [hn1] at hi
+    show (G.nodes ++ F.nodes)[swapBlocks F.n G.n i]? = (F.nodes ++ G.nodes)[i]?
+    unfold swapBlocks
+    by_cases h1 : i < F.n
+    · rw [if_pos h1, List.getElem?_append_right (by show G.nodes.length ≤ _; exact Nat.le_add_right _ _),
+        List.getElem?_append_left h1]
+      congr 1
+      show G.n + i - G.n = i
+      omega
+    · rw [if_neg h1, List.getElem?_append_left (by show i - F.n < G.n; omega),
+        List.getElem?_append_right (by show F.n ≤ i; omega)]
+      rfl
+  · intro e he
+    rw [hl1] at he
+    show (G.edges ++ F.edges.map (PEdge.mapNodes (G.n + ·)))[swapBlocks _ _ e]? =
+      ((F.edges ++ G.edges.map (PEdge.mapNodes (F.n + ·)))[e]?).map _
+    unfold swapBlocks
+    by_cases h1 : e < F.edges.length
+    · rw [if_pos h1, List.getElem?_append_right (Nat.le_add_right _ _),
+        List.getElem?_append_left h1, Nat.add_sub_cancel_left, List.getElem?_map]
+      cases hfe : F.edges[e]? with
+      | none => rfl
+      | some x =>
+        obtain ⟨hs, ht⟩ := f3 x (List.mem_of_getElem? hfe)
+        simp only [Option.map_some, Option.some.injEq]
+        apply PEdge.mapNodes_congr
+        · intro v hv; rw [if_pos (hs v hv)]
+        · intro v hv; rw [if_pos (ht v hv)]
+    · rw [if_neg h1, List.getElem?_append_left (by omega),
+        List.getElem?_append_right (by omega), List.getElem?_map]
+      cases G.edges[e - F.edges.length]? with
+      | none => rfl
+      | some x =>
+        simp only [Option.map_some, Option.some.injEq, PEdge.mapNodes_comp]
+        rw [← PEdge.mapNodes_id x]
+        rw [PEdge.mapNodes_comp]
+        apply PEdge.mapNodes_congr <;> intro v _ <;> rw [if_neg (by omega)] <;> omega
+  · show G.outs = (G.outs.map (F.n + ·)).map (swapBlocks F.n G.n)
+    rw [List.map_map]
+    conv => lhs; rw [← List.map_id G.outs]
+    apply List.map_congr_left
+    intro v _
+    simp only [Function.comp, swapBlocks, id]
+    rw [if_neg (by omega)]; omega
+  · show F.ins.map (G.n + ·) = F.ins.map (swapBlocks F.n G.n)
+    apply List.map_congr_left
+    intro v hv
+    simp only [swapBlocks]
+    rw [if_pos (f1 v hv)]
+  · intro i j hi hj
+    rw [hn1] at hi hj
+    have hi' : i < (gluePre F G).n := by rw [gluePre_n]; exact hi
+    have hj' : j < (gluePre F G).n := by rw [gluePre_n]; exact hj
+    have hσi : swapBlocks F.n G.n i < (gluePre G.dagger F.dagger).n := by
+      rw [hn2]; exact (swapBlocks_bijOn F.n G.n).1 i hi
+    have hσj : swapBlocks F.n G.n j < (gluePre G.dagger F.dagger).n := by
+      rw [hn2]; exact (swapBlocks_bijOn F.n G.n).1 j hj
+    rw [hk i j hi' hj', hk' _ _ hσi hσj]
+    constructor
+    · exact glue_swap hF hG i j
+    · intro hh
+      have := glue_swap (pdagger_wf hG) (pdagger_wf hF) _ _ hh
+      have e1 := swapBlocks_swapBlocks F.n G.n i hi
+      have e2 := swapBlocks_swapBlocks F.n G.n j hj
+      change EqvGen _ (swapBlocks G.n F.n (swapBlocks F.n G.n i))
+        (swapBlocks G.n F.n (swapBlocks F.n G.n j)) at this
+      rw [e1, e2] at this
+      exact this
+
+/-- DAGGER REVERSES COMPOSITION: for well-formed `f`, `g` with matching types and every lawful
+    backend, both `f ; g` and `g† ; f†` are defined and `(f ; g)† ≅ g† ; f†` -/
+theorem dagger_comp [DecidableEq O] (B : Backend) (hB : B.Lawful) (f g : OHG O A)
+    (hf : f.wf = true) (hg : g.wf = true) (hty : f.target = g.source) :
+    ∃ r r', OHG.compose B f g = .ok r ∧ OHG.compose B g.dagger f.dagger = .ok r' ∧
+      r.dagger.wf = true ∧ r'.wf = true ∧ r.dagger.toPlain ≅ r'.toPlain := by
+  obtain ⟨_, _, _, hfs, hft⟩ := (ohg_wf_iff f).1 hf
+  obtain ⟨_, _, _, hgs, hgt⟩ := (ohg_wf_iff g).1 hg
+  have hfd : f.dagger.wf = true := by rw [dagger_wf]; exact hf
+  have hgd : g.dagger.wf = true := by rw [dagger_wf]; exact hg
+  have hty' : g.dagger.target = f.dagger.source := by
+    rw [dagger_target g hgs, dagger_source f hft]; exact hty.symm
+  obtain ⟨r, hr⟩ := (C01.compose_total B hB f g hf hg).1 hty
+  obtain ⟨r', hr'⟩ := (C01.compose_total B hB g.dagger f.dagger hgd hfd).1 hty'
+  obtain ⟨hglue, hrw⟩ := C01.compose_isGluing B hB f g r hf hg hr
+  obtain ⟨hglue', hrw'⟩ := C01.compose_isGluing B hB _ _ r' hgd hfd hr'
+  refine ⟨r, r', hr, hr', by rw [dagger_wf]; exact hrw, hrw', ?_⟩
+  exact gluing_dagger (Compose.toPlain_wf ((Compose.wf_iff f).1 hf))
+    (Compose.toPlain_wf ((Compose.wf_iff g).1 hg)) hglue hglue'
+
+/-- the hypotheses are satisfiable (the non-trivial pair of `OH.C01`), and the two composites are
+    genuinely different data: `g† ; f†` lists `g`'s nodes and edges first -/
+example : C01.exF.wf = true ∧ C01.exG.wf = true ∧ C01.exF.target = C01.exG.source ∧
+    (OHG.toPlain <$> (OHG.compose vecBackend C01.exF C01.exG >>= fun r => .ok r.dagger)) =
+      .ok ⟨[10, 20, 30], [⟨7, [0], [1, 1]⟩, ⟨8, [1, 1], [2]⟩], [2], [0]⟩ ∧
+    (OHG.toPlain <$> OHG.compose vecBackend C01.exG.dagger C01.exF.dagger) =
+      .ok ⟨[20, 30, 10], [⟨8, [0, 0], [1]⟩, ⟨7, [2], [0, 0]⟩], [1], [2]⟩ := by decide
+
+end DaggerComp
 
 end OH.C04
